@@ -106,9 +106,9 @@ Definition step (s : state) (l : label) : state :=
     let x := get s d in
     if copying s && copier x && src_closed x && negb (pclosed s)
        && (match wire_in x with [] => true | _ => false end) && (match hold x with [] => true | _ => false end)
-    then mkState (cb (put s d (mkDir (tosend x) (wire_in x) (buf x) (flushed x) (hold x) (wire_out x) (recv x) (src_closed x) false (dst_eof x))))
-                 (bc (put s d (mkDir (tosend x) (wire_in x) (buf x) (flushed x) (hold x) (wire_out x) (recv x) (src_closed x) false (dst_eof x))))
-                 true (pclosed s)
+    then let s' := put s d (mkDir (tosend x) (wire_in x) (buf x) (flushed x) (hold x) (wire_out x) (recv x)
+                                  (src_closed x) false (dst_eof x)) in
+         mkState (cb s') (bc s') true (pclosed s)
     else s
   | LShutdown =>
     if armed s && negb (pclosed s) then mkState (cb s) (bc s) (armed s) true else s
